@@ -4,7 +4,7 @@
    the implementation returned; exhaustive domains (all strings of a length
    over a small alphabet, behind a prefix) are enumerated here and compared by
    a polynomial fingerprint. *)
-From Coq Require Import List NArith Bool String Ascii.
+From Coq Require Import List NArith Bool String Ascii Uint63.
 From T4V Require Import Base.Str Base.Cases C14.Model.
 Import ListNotations.
 Open Scope string_scope.
@@ -71,13 +71,21 @@ Definition tied (fid : N) (s : string) : string :=
 Definition check_ser (c : N * string * string) : bool :=
   let '(fid, inp, out) := c in String.eqb (tied fid inp) out.
 
-(* ---- exhaustive domains by fingerprint ---- *)
-Definition MODULUS : N := 2147483647.
+(* ---- exhaustive domains by fingerprint (primitive 63-bit integers: every
+   intermediate value stays below 2^52) ---- *)
+Definition MODULUS : int := 2147483647%uint63.
 
-Fixpoint hstr (s : string) (h : N) : N :=
+Definition b2i (b : bool) (v : int) : int := if b then v else 0%uint63.
+Definition ascii_int (c : ascii) : int :=
+  match c with
+  | Ascii b0 b1 b2 b3 b4 b5 b6 b7 =>
+      (b2i b0 1 + b2i b1 2 + b2i b2 4 + b2i b3 8 + b2i b4 16 + b2i b5 32 + b2i b6 64 + b2i b7 128)%uint63
+  end.
+
+Fixpoint hstr (s : string) (h : int) : int :=
   match s with
   | EmptyString => h
-  | String c r => hstr r ((h * 263 + N_of_ascii c + 1) mod MODULUS)%N
+  | String c r => hstr r ((h * 263 + ascii_int c + 1) mod MODULUS)%uint63
   end.
 
 Fixpoint all_strings (alpha : list ascii) (n : nat) : list string :=
@@ -86,12 +94,13 @@ Fixpoint all_strings (alpha : list ascii) (n : nat) : list string :=
   | S k => flat_map (fun c => map (String c) (all_strings alpha k)) alpha
   end.
 
-Definition fingerprint (fid : N) (inputs : list string) : N :=
-  fold_left (fun acc s => ((acc * 1000003 + hstr (tied fid s) (hstr s 7)) mod MODULUS)%N) inputs 0%N.
+Definition fingerprint (fid : N) (inputs : list string) : int :=
+  fold_left (fun acc s => ((acc * 1000003 + hstr (tied fid s) (hstr s 7)) mod MODULUS)%uint63)
+            inputs 0%uint63.
 
 (* case: (function, alphabet, length of the enumerated part, prefix, suffix, fingerprint
    computed from the implementation) *)
-Definition check_fp (c : N * string * N * string * string * N) : bool :=
+Definition check_fp (c : N * string * N * string * string * int) : bool :=
   let '(fid, alpha, n, pre, suf, fp) := c in
-  N.eqb (fingerprint fid (map (fun s => pre ++ s ++ suf)
-                              (all_strings (list_ascii_of_string alpha) (N.to_nat n)))) fp.
+  Uint63.eqb (fingerprint fid (map (fun s => pre ++ s ++ suf)
+                                   (all_strings (list_ascii_of_string alpha) (N.to_nat n)))) fp.
